@@ -19,13 +19,16 @@ VARIANTS = [
     {'a': '1e+30', 'b': '8.json', 'c': 'q'},
     {'a': 'A b', 'b': 'a.b', 'c': 'q'},
     {'a': 'Ab', 'b': 'ab', 'c': 'q'},
+    {'a': 'é', 'b': '日本', 'c': 'q'},                         # multi-byte characters
+    {'a': ' x~$%#?*', 'b': "[:]=,;@!&()'\"\\", 'c': 'q'},       # punctuation, blanks, quotes, a backslash
+    {'a': '.a', 'b': '..b', 'c': 'q'},                        # leading dots (never "." or ".." alone)
 ]
 BUCKETS = [
     {'u': 'u', 'u2': 'u2'},
     {'u': 'local-telemetry-uploaded', 'u2': 'local-telemetry-merged'},
     {'u': 'b', 'u2': 'a'},
 ]
-DATAS = {'d0': '0:1', 'd1': '5:2', 'd2': '100000:3', 'd3': '5:4'}
+DATAS = {'d0': '0:1', 'd1': '5:2', 'd2': '100000:3', 'd3': '5:4', 'd4': '32768:5', 'd5': '32769:6', 'd6': '1:7'}
 
 
 def conc_str(chars, v):
@@ -61,7 +64,7 @@ def behaviours_from_sim(ctx, files):
             objs = {}
             for b, m in st['objs'].items():
                 objs[bm[b]] = {conc_name(n, v): d for n, d in m.items()} if isinstance(m, dict) else {}
-            s = {'op': last['op'], 'objs': objs}
+            s = {'op': last['op'], 'objs': objs, 'via': st['via']}
             if last['op'] in ('write', 'read'):
                 s['b'] = bm[last['b']]
                 s['name'] = conc_name(last['name'], v)
@@ -91,8 +94,8 @@ def behaviours_from_sim(ctx, files):
 def run(ctx):
     ctx.assumptions += [
         'file-system backend only (FSBucket); the GCS backend is not exercised',
-        'object names are non-empty sequences of ordinary components (ASCII letters, digits, "-", "_", ".", "+", blank inside; never ".", "..", '
-        'empty, or containing a slash); one operation at a time (no concurrent writers)',
+        'object names are non-empty sequences of ordinary components: any characters but "/" and NUL (letters, digits, punctuation, blanks, '
+        'multi-byte UTF-8), never "." or ".." alone, never empty, each component at most 255 bytes; listing prefixes are cut at character boundaries; one operation at a time (no concurrent writers)',
         'name sets in which one name is a proper path prefix of another (a and a/b) are outside the property for a file-system backend: '
         'the generators never write or read a name that conflicts with a stored one (observation, not reported: reading "a" while "a/b" is '
         'stored yields an is-a-directory read error instead of not-exist)',
@@ -111,7 +114,7 @@ def run(ctx):
     gu.inject_files(ctx, 'godev/internal/verifh/c18', ['c18_test.go'])
 
     # ---- 1. the specification itself: exhaustive runs ------------------------
-    cfgs = ['StorageBfs.cfg', 'StorageBfsCopy.cfg'] + (['StorageBfs1.cfg', 'StorageBfsThorough.cfg'] if ctx.thorough() else [])
+    cfgs = ['StorageBfs.cfg', 'StorageBfsCopy.cfg'] + (['StorageBfsSmall.cfg', 'StorageBfsCopy4.cfg', 'StorageBfs1.cfg', 'StorageBfsThorough.cfg'] if ctx.thorough() else [])
     for cfg in cfgs:
         r = ctx.tlc('StorageMC', cfg=cfg, label=cfg[:-4], timeout=3000)
         if not r.ok:
@@ -188,7 +191,7 @@ def run(ctx):
     service_names(ctx)
 
     ctx.cov['rule'] = ('behaviours = TLC -simulate walks of Storage.tla (write / read / list / copy; 2 buckets, all 39 names of depth <= 3 over {a,b,ab}, 4 data values, every '
-                       'string prefix) concretized by 6 name alphabets, every step and the file tree compared; observations = random histories on '
+                       'string prefix) concretized by 9 name alphabets (ASCII, service-shaped, mixed case, multi-byte, punctuation, leading dots), every step and the file tree compared; observations = random histories on '
                        'random ordinary names recorded from FSBucket and validated by TLC (StorageTrace); distinct = behaviours + histories + '
                        'service requests')
     ctx.cov['distinct_nontrivial'] = len(behs) + summ['histories'] + ctx.cov.get('service_requests', 0)
@@ -229,6 +232,9 @@ def service_names(ctx):
     reqs.append({'svc': 'merge', 'query': {'date': '2023-01-02'}})
     reqs.append({'svc': 'merge', 'query': {'date': '2023-01-03'}})
     reqs.append({'svc': 'chart', 'query': {'start': '2023-01-01', 'end': '2023-01-03'}})
+    reqs.append({'svc': 'chart', 'query': {'date': '2023-01-01', 'start': '2023-01-01', 'end': '../x'}})
+    reqs.append({'svc': 'chart', 'query': {'start': '2023-01-03', 'end': '2023-01-01'}})
+    reqs.append({'svc': 'merge', 'query': {}})
     for q in ({'date': '2023-01-05'}, {'start': '2023-01-04', 'end': '2023-01-06'}, {'date': '../x'}, {'start': '2023-01-05', 'end': '../../x'},
               {'start': '2023-01-05/../..', 'end': '2023-01-06'}):
         reqs.append({'svc': 'copy', 'query': q})
